@@ -1,0 +1,24 @@
+//go:build verif
+
+// Contracts for the verification machinery in /verif (comment-only; no declarations).
+//
+// C01 (WebRTC runs the libp2p Noise handshake over the handshake data channel): the session transport is built with the
+// prologue derived from this peer connection's two DTLS fingerprints, the peer-ID check is switched off only when no
+// peer is expected (listener side), the expected peer is handed to the handshake unchanged, and the key reported is the
+// one the secured connection reports.
+
+package libp2pwebrtc
+
+//@ func (t *WebRTCTransport) noiseHandshake
+//@ prop C01
+//@ callsite Prologue#0 requires arg0 == ret(generateNoisePrologue, 0, 0) && ret(generateNoisePrologue, 0, 1) == nil &&
+//@         arg(generateNoisePrologue, 0, 1) == pc && arg(generateNoisePrologue, 0, 2) == hash && arg(generateNoisePrologue, 0, 3) == inbound
+//@ callsite WithSessionOptions#0 requires arg0 == t.noiseTpt && len(arg1) >= 1 && arg1[0] == ret(Prologue, 0, 0) && (len(arg1) == 1 || peer == "")
+//@ ensures called(DisablePeerIDCheck, 0) ==> peer == ""
+//@ ensures result1 == nil ==> called(WithSessionOptions, 0) && ret(WithSessionOptions, 0, 1) == nil
+//@ ensures result1 == nil && inbound ==> called(SecureOutbound, 0) && arg(SecureOutbound, 0, 0) == ret(WithSessionOptions, 0, 0) && arg(SecureOutbound, 0, 3) == peer &&
+//@         ret(SecureOutbound, 0, 1) == nil && arg(RemotePublicKey, 0, 0) == ret(SecureOutbound, 0, 0)
+//@ ensures result1 == nil && !inbound ==> called(SecureInbound, 0) && arg(SecureInbound, 0, 0) == ret(WithSessionOptions, 0, 0) && arg(SecureInbound, 0, 3) == peer &&
+//@         ret(SecureInbound, 0, 1) == nil && arg(RemotePublicKey, 0, 0) == ret(SecureInbound, 0, 0)
+//@ ensures result1 == nil ==> called(RemotePublicKey, 0) && result0 == ret(RemotePublicKey, 0, 0)
+//@ noframe
